@@ -72,6 +72,8 @@ type Scenario struct {
 	Tmpls []SetSpec `json:"tmpls,omitempty"` // deployment template pool
 	// Lag: ObjectSets created since the last "sync" step are invisible to the ObjectDeployment controller's reads
 	Lag bool `json:"lag,omitempty"`
+	// GracefulWidgets: Widgets are deleted gracefully (stay terminating without finalizers until the "kubelet" step)
+	GracefulWidgets bool `json:"gracefulWidgets,omitempty"`
 	Steps []Step `json:"steps"`
 }
 
@@ -168,6 +170,9 @@ func NewRunner(sc *Scenario, mons ...Monitor) *Runner {
 		os.Unsetenv(constants.ForceAdoptionEnvironmentVariable)
 	}
 	r.W.Store.BeforeCall = r.beforeCall
+	if sc.GracefulWidgets {
+		r.W.Store.Graceful = map[schema.GroupKind]bool{engine.GVKWidget.GroupKind(): true}
+	}
 	return r
 }
 
@@ -682,6 +687,7 @@ func (r *Runner) Quiesce() (int, bool, error) {
 			}
 		}
 		r.GC()
+		r.Kubelet()
 		if r.W.Store.RV() == before {
 			return round, true, nil
 		}
@@ -711,6 +717,8 @@ func (r *Runner) Exec(idx int, st Step) error {
 			return nil
 		}
 		r.SetWidgetStatus(keys[mod(st.I, len(keys))], WidgetStates[mod(st.J, len(WidgetStates))])
+	case "kubelet":
+		r.Kubelet()
 	case "sync":
 		r.SyncCaches()
 	case "gc":
@@ -1210,4 +1218,15 @@ func (r *Runner) KeysAt(group, kind string, idx int) []kubesim.Key {
 	}
 	sort.Slice(live, func(i, j int) bool { return live[i].String() < live[j].String() })
 	return live
+}
+
+// Kubelet finishes the graceful termination of objects without finalizers.
+func (r *Runner) Kubelet() {
+	for _, k := range r.W.Store.Keys() {
+		if r.W.Store.Graceful[schema.GroupKind{Group: k.Group, Kind: k.Kind}] {
+			if r.W.Store.FinishTermination(k) {
+				r.Labels["graceful-termination-finished"] = true
+			}
+		}
+	}
 }
